@@ -317,6 +317,21 @@ func genC15(r *Rng, tier string) (*Scenario, []Op) {
 		var task []Op
 		for j := 0; j < n; j++ {
 			o := Pick(r, ops)
+			if o.Data != nil && r.Chance(50) {
+				// "with their own data": the same operation, other values
+				nd := &Val{T: o.Data.T, K: append([]string{}, o.Data.K...)}
+				for x, k := range o.Data.K {
+					v := o.Data.V[x]
+					switch {
+					case (k == "n1" || k == "n2" || k == "den" || k == "top" || k == "k") && v.T == "int":
+						v = VInt(int(v.I) + 1 + i)
+					case (k == "s0" || k == "s1") && v.T == "str":
+						v = VStr(fmt.Sprintf("%s#t%d", v.S, i))
+					}
+					nd.V = append(nd.V, v)
+				}
+				o.Data = nd
+			}
 			if o.Kind != "evalstr" && o.Kind != "evalfile" && strings.HasPrefix(o.Name, "no/such/") {
 				o.Name = fmt.Sprintf("no/such/page-%d-%d", i, j) // a name nobody has asked for before
 			}
